@@ -198,6 +198,31 @@ fn one_assignment(assign: [usize; 4], cycles: usize) -> (u64, u64, Vec<Viol>, BT
                 }
             }
         }
+        // read -> insert -> write: entries added to an environment that was read from the layer are
+        // persisted as given, next to the explicit entries, and the implicit ones (and their
+        // delimiter) still are not
+        for (scope, beh, var, val) in [(Sc::Launch, Beh::Append, "LD_LIBRARY_PATH", "/ins"), (Sc::Build, Beh::Prepend, "PATH", "/ins"), (Sc::Build, Beh::Append, "CPATH", "/ins")] {
+            fix += 1;
+            // back to the explicit env as first written
+            let _ = std::fs::remove_dir_all(layer.join("env"));
+            let _ = std::fs::remove_dir_all(layer.join("env.build"));
+            let _ = std::fs::remove_dir_all(layer.join("env.launch"));
+            real_env(&abs).write_to_layer_dir(&layer).expect("rewrite explicit env");
+            let mut want_abs = abs.clone();
+            want_abs.insert((scope.clone(), beh, var.as_bytes().to_vec()), val.as_bytes().to_vec());
+            let r = LayerEnv::read_from_layer_dir(&layer).and_then(|mut e| {
+                e.insert(scope.real(), beh.real(), var, val);
+                e.write_to_layer_dir(&layer)
+            });
+            if let Err(e) = r {
+                viols.push(("fixpoint-call-failed:insert".into(), format!("layer {adesc:?}, env '{ename}': read -> insert -> write failed: {e}"), json!({"assign": assign, "env": ename})));
+                continue;
+            }
+            let files: std::collections::BTreeMap<Vec<u8>, Vec<u8>> = abstract_layer(&Snapshot::take(&ctx.layers_dir).unwrap(), "a").env_files;
+            if files != env_files_of(&want_abs) {
+                viols.push(("implicit-entry-persisted:insert".into(), format!("layer {adesc:?}, env '{ename}': read -> insert({scope:?}, {beh:?}, {var}) -> write left {:?}, expected {:?}", files.iter().map(|(k, v)| format!("{}={}", String::from_utf8_lossy(k), String::from_utf8_lossy(v))).collect::<Vec<_>>(), env_files_of(&want_abs).iter().map(|(k, v)| format!("{}={}", String::from_utf8_lossy(k), String::from_utf8_lossy(v))).collect::<Vec<_>>()), json!({"assign": assign, "env": ename})));
+            }
+        }
     }
     (evals, fix, viols, outcomes)
 }
@@ -319,7 +344,7 @@ pub fn run(args: &Args) {
     rep.cov("fixpoint_cycles_run", fix);
     rep.cov("distinct_nontrivial", outcomes.len() as u64);
     rep.cov("distinct_outcomes", outcomes.len() as u64);
-    rep.cov("rule", "all 6^4 assignments of {absent, dir, file, symlink->dir, symlink->file, dangling symlink} to bin/lib/include/pkgconfig, plus two kinds that fail to resolve with ELOOP / ENOTDIR (quick: all 4^4 over {absent, dir, ELOOP, ENOTDIR}; thorough: all 8^4) x 10 explicit envs (two with a non-empty per-process directory, three whose value is exactly the layer's own bin/lib path) on the same variables x 4 start envs (unset, set, empty, beginning and ending with the separator) x 4 query scopes, each read by the real read_from_layer_dir and compared with the reference; per assignment x explicit env, read->write cycles by 6 routes (LayerEnv, cached_layer keep+read_env/write_env, handle_layer Keep, handle_layer Update with the default impl, the last two also on a restored layer whose toml has no [types]) must leave the env directories unchanged; layer directory spellings: all 3^4 assignments over {absent, dir, link->dir} x 7 spellings of the layer path (non-UTF-8 component, trailing slash, ./.. segments, symlinked parent, space/colon/'=', a \\\\?\\ component, U+FFFD/non-ASCII) x 3 scopes x 4 start envs: the implicit value is the handed-over path joined with the sub-directory, byte for byte. distinct_nontrivial = distinct (scope, resulting environment) outcomes with the scratch path normalised");
+    rep.cov("rule", "all 6^4 assignments of {absent, dir, file, symlink->dir, symlink->file, dangling symlink} to bin/lib/include/pkgconfig, plus two kinds that fail to resolve with ELOOP / ENOTDIR (quick: all 4^4 over {absent, dir, ELOOP, ENOTDIR}; thorough: all 8^4) x 10 explicit envs (two with a non-empty per-process directory, three whose value is exactly the layer's own bin/lib path) on the same variables x 4 start envs (unset, set, empty, beginning and ending with the separator) x 4 query scopes, each read by the real read_from_layer_dir and compared with the reference; per assignment x explicit env, read->write cycles by 6 routes (LayerEnv, cached_layer keep+read_env/write_env, handle_layer Keep, handle_layer Update with the default impl, the last two also on a restored layer whose toml has no [types]) must leave the env directories unchanged, and read -> insert (3 entries on variables that have implicit values) -> write must add exactly the inserted entry; layer directory spellings: all 3^4 assignments over {absent, dir, link->dir} x 7 spellings of the layer path (non-UTF-8 component, trailing slash, ./.. segments, symlinked parent, space/colon/'=', a \\\\?\\ component, U+FFFD/non-ASCII) x 3 scopes x 4 start envs: the implicit value is the handed-over path joined with the sub-directory, byte for byte. distinct_nontrivial = distinct (scope, resulting environment) outcomes with the scratch path normalised");
     rep.cov("bound", json!({"assignments": assigns.len(), "explicit_envs": 10, "start_envs": 4, "scopes": 4, "cycles": cycles, "routes": 6}));
     rep.cov("exhaustive", true);
     rep.sample(json!({"assignment": {"bin": "link->dir", "lib": "file", "include": "dir", "pkgconfig": "dangling"}, "explicit": "PATH append+delim in build", "scope": "Build", "start": "all five variables set"}));
